@@ -19,6 +19,9 @@ class BaseSerialGateway(Gateway):
 
     def __init__(self, port, baud=115200, **kwargs):
         """Set up base serial gateway."""
+        # The transport options have been consumed by the transport.
+        kwargs.pop("timeout", None)
+        kwargs.pop("reconnect_timeout", None)
         super().__init__(**kwargs)
         self.port = port
         self.baud = baud
